@@ -46,9 +46,11 @@ use fpdec_core::{str_to_dec, ParseDecimalError, MAX_N_FRAC_DIGITS};
 #[proc_macro]
 pub fn Dec(input: TokenStream) -> TokenStream {
     let mut src = input.to_string();
-    // "-" and "+" get separated by a blank => remove it
-    if src.starts_with("- ") || src.starts_with("+ ") {
-        src.remove(1);
+    // "-" and "+" get separated from the number by white space (a blank or,
+    // in front of a long literal, a line break) => remove it
+    if src.starts_with('-') || src.starts_with('+') {
+        let n_ws = src[1..].len() - src[1..].trim_start().len();
+        src.replace_range(1..1 + n_ws, "");
     }
     match str_to_dec(&src) {
         Err(e) => panic!("{}", e),
